@@ -18,7 +18,7 @@ CHECKS = {
    "a 304 counts as a validation only if the precondition the origin evaluated was copied from the stored response (read from the bytes the store returned); request max-age and max-stale add up", "DESIGN.md 4 C02"),
  "C03": T("exploration", RM + "bulk store/lookup of URI sets (all pairs implied) judged by an independent RFC 3986 equivalence classifier; every method and GET+Range against a populated cache; malformed percent-escapes in queries; random histories",
    "A foreign body token returned for a URI the classifier calls distinct, or any from-store answer to a non-GET / Range request, is a violation.",
-   "pairs classified unknown (userinfo, '?' vs none, %2E dot segments, raw vs encoded non-ASCII, opaque vs hierarchical) are not judged", "DESIGN.md 4 C03"),
+   "pairs classified unknown (userinfo, raw vs encoded non-ASCII, opaque vs hierarchical, a stray '%' next to a real escape) are not judged", "DESIGN.md 4 C03"),
  "C04": T("exploration", RM + "universal monitor comparing the request that fetched the body with the current request on every nominated Vary field (aggressive normalisation => only sure differences count), over random histories with changing Vary sets, and a reuse part in which the caller re-targets its request object while a background validation is in flight",
    "A from-store, unvalidated answer whose stored Vary nominates a field on which the two requests surely differ, or whose Vary has a '*' member, is a violation.",
    "values the aggressive normaliser equates are not judged; true 64-bit hash collisions are not sought", "DESIGN.md 4 C04"),
@@ -26,10 +26,10 @@ CHECKS = {
    "Any store write containing a message whose request/response forbids storing (no-store, non-GET, Range, 1xx/206/304, must-understand with unknown status, no freshness + non-heuristic status, failed body) and any unconditional GET answered 304 is a violation.",
    "token scan works on plaintext backends; statuses in any heuristic list are treated as storable", "DESIGN.md 4 C06"),
  "C07": T("exploration", RM + "token-epoch monitor: after a successful unsafe exchange no body stored earlier for the equivalent target (or a same-origin URI named by Location/Content-Location) may come back unvalidated; random histories mixing methods",
-   "Negative half on every exchange of random histories.", "sequential histories only", "DESIGN.md 4 C07"),
+   "Negative half on every exchange of random histories.", "sequential histories (interleavings with unsafe requests are judged by C16 Mode S); a background reply that arrives after the unsafe request counts as pre-invalidation content, except for a virtual-time tie with a newer request", "DESIGN.md 4 C07"),
  "C08": T("exploration", RM + "scenario oracle over validation chains (304 with header updates / full 200, foreground and stale-while-revalidate background, several variants): follow-ups inside the new lifetime must come from the store with the right body, header block and restarted Age; an inflight part in which a reload replaces the representation while a slow background validation of it is in flight (the late answer must not bring the replaced one back, nor put its header block on the new body)",
    "The generator knows what must be served after each validation; any origin contact, wrong body, stale header block, Content-Length/hop-by-hop merge, non-restarted Age or lost variant is a violation.",
-   "scripted origin; +-1..2 s tolerance on Age", "DESIGN.md 4 C08"),
+   "scripted origin; +-1..2 s tolerance on Age; a 304 without Age restarts the age (a carried-over Age is a violation)", "DESIGN.md 4 C08"),
  "C09": T("exploration", RM + "scenario oracle: store, non-invalidating noise, then an equivalent request (URI and header spellings the cache documents) inside the lifetime must be answered from the store without origin contact; memory, fs, encrypted fs and reopened fs backends",
    "Catches 'safe but useless' regressions: any origin contact or foreign token for a fresh matching request is a violation.",
    "only equivalences the cache documents are used; margins >= 2 s", "DESIGN.md 4 C09"),
@@ -65,7 +65,7 @@ CHECKS = {
    "'never answering' observed for 10T+2h virtual", "DESIGN.md 4 C20"),
  "C16": T("exploration", "Go race detector over free-running random histories with background revalidation (Mode R), snapshot comparison of every returned header map and body at return / quiescence / end of history, and a deterministic gate scheduler (Mode S) that parks every store and origin operation of two concurrent requests and enumerates their interleavings depth-first, judging each outcome against the sequential rules (resource, variant, body token, invalidation epoch); a store-faults part fails every foreground and background store operation in turn under the same ownership monitors, with callers that read the body only after quiescence",
    "Race reports with a repository frame, any change of a returned header map after return, any modification of the caller's request, and any response of an enumerated interleaving that no sequential rule permits are violations.",
-   "race detector sees only reached paths and its report set varies run to run; Mode S covers pairs of requests from a 14-request alphabet (triples only sampled); interleavings inside one store/origin operation are left to Mode R", "DESIGN.md 3.6, 4 C16, A.2"),
+   "race detector sees only reached paths and its report set varies run to run; Mode S covers pairs of requests from a 24-request alphabet (12 key pairs in every tier; triples only sampled); interleavings inside one store/origin operation are left to Mode R", "DESIGN.md 3.6, 4 C16, A.2"),
  "C18": T("exploration", RM + "universal monitor: an only-if-cached exchange must have no upstream call (foreground or background, after quiescence) and be a usable stored response or the synthesised 504; a store-faults part repeats this with every store operation failing or returning damaged bytes in turn",
    "Any origin contact, any other result, or a stored response that needs validation is a violation.",
    "virtual time; random histories with only-if-cached sprinkled in; every method and Range requests count", "DESIGN.md 4 C18"),
